@@ -189,6 +189,9 @@ def make_exception(spec):
     from clikit.api.resolver.exceptions import CannotResolveCommandException
 
     t, m = spec["type"], spec["msg"]
+    if t == "FromWrite":
+        # the handler's own formatted write fails: the text is markup the formatter rejects
+        return ValueError("Incorrectly nested style tag found.")
     if t == "KeyError":
         e = KeyError(m)
     elif t == "OSError":
